@@ -4,50 +4,96 @@ From C04 Require Import Generated Model Proofs.
 Import ListNotations.
 Open Scope Z_scope.
 
-(* T4.cache — for every parser (any function of the text), every initial variable state, every
-   history h of texts of ANY length and every text t: running t through __call__ in the state the
-   history left behind — parse cache, compiled cache, `_compiled` memos on inner nodes and all —
-   gives the result and the variable state that the bare interpreter gives for t on the current
-   variables; and those variables are what the bare interpreter would have produced for h.
-   Holds because the operands of cached compiled code are re-checked at call time (regenerated
-   flag; fix d5a263f); it does not depend on whether assignments clear the compiled cache. *)
+(* T4.cache — for every parser (any function of the text AND the active module, which also says
+   which module is active afterwards: `.module(:m)` switches at parse time), every initial variable
+   state, every history h of texts of ANY length and every text t: running t through __call__ in
+   the state the history left behind — parse cache keyed by (text, module), compiled cache,
+   `_compiled` memos on inner nodes and all — gives the result, the variables and the active
+   module that parsing t under the active module and running the bare interpreter gives; and the
+   state after h is the one the reference produces for h.  Holds because (i) the operands of
+   cached compiled code are re-checked at call time and (ii) the parse cache key contains the
+   module (both regenerated flags); it does not depend on whether assignments clear the compiled
+   cache.  Excluded (known finding C04-cached-module-switch): histories in which a text whose
+   parse switches the module is served from the parse cache (`no_cached_switch`). *)
 Theorem C04_cache_transparent : forall clear_on_set parse s0 h t,
-  let st := state_after compiled_args_rechecked clear_on_set parse (fresh s0) h in
-  (fst (run_cached compiled_args_rechecked clear_on_set parse st t),
-   vars (snd (run_cached compiled_args_rechecked clear_on_set parse st t)))
-    = eval_pure (parse t) (vars st)
-  /\ vars st = pure_after parse s0 h.
+  no_cached_switch compiled_args_rechecked clear_on_set parse_cache_key_has_module parse (fresh s0) (h ++ [t]) = true ->
+  let st := state_after compiled_args_rechecked clear_on_set parse_cache_key_has_module parse (fresh s0) h in
+  let r := run_cached compiled_args_rechecked clear_on_set parse_cache_key_has_module parse st t in
+  (fst r, (cur (snd r), vars (snd r))) = eval_ref parse (cur st, vars st) t
+  /\ (cur st, vars st) = ref_after parse (0, s0) h.
 Proof.
   exact (eq_ind_r (fun f => forall clear_on_set parse s0 h t,
-            let st := state_after f clear_on_set parse (fresh s0) h in
-            (fst (run_cached f clear_on_set parse st t), vars (snd (run_cached f clear_on_set parse st t)))
-              = eval_pure (parse t) (vars st)
-            /\ vars st = pure_after parse s0 h)
-           cache_transparent (eq_refl : compiled_args_rechecked = true)).
+            no_cached_switch f clear_on_set parse_cache_key_has_module parse (fresh s0) (h ++ [t]) = true ->
+            let st := state_after f clear_on_set parse_cache_key_has_module parse (fresh s0) h in
+            let r := run_cached f clear_on_set parse_cache_key_has_module parse st t in
+            (fst r, (cur (snd r), vars (snd r))) = eval_ref parse (cur st, vars st) t
+            /\ (cur st, vars st) = ref_after parse (0, s0) h)
+          (eq_ind_r (fun g => forall clear_on_set parse s0 h t,
+            no_cached_switch true clear_on_set g parse (fresh s0) (h ++ [t]) = true ->
+            let st := state_after true clear_on_set g parse (fresh s0) h in
+            let r := run_cached true clear_on_set g parse st t in
+            (fst r, (cur (snd r), vars (snd r))) = eval_ref parse (cur st, vars st) t
+            /\ (cur st, vars st) = ref_after parse (0, s0) h)
+            cache_transparent (eq_refl : parse_cache_key_has_module = true))
+          (eq_refl : compiled_args_rechecked = true)).
 Qed.
 Print Assumptions C04_cache_transparent.
 
 (* R15: without the re-check the statement is false.  a::2; b::3; #a*b; a::"ab"; then #a*b again:
    the inner node a*b still carries the code compiled for integers, Python's * repeats the string,
    the answer is 6; a fresh interpreter with the same variables raises. *)
-Definition r15_parse (t : text) : expr :=
-  if t =? 1 then EDef 10 (ELit (VInt 2)) else
-  if t =? 2 then EDef 11 (ELit (VInt 3)) else
-  if t =? 3 then ESize (EBin Mul (EVar 10) (EVar 11)) else
-  EDef 10 (ELit (VStr [97; 98])).
+Definition r15_parse (t : text) (m : module) : expr * module :=
+  (if t =? 1 then EDef 10 (ELit (VInt 2)) else
+   if t =? 2 then EDef 11 (ELit (VInt 3)) else
+   if t =? 3 then ESize (EBin Mul (EVar 10) (EVar 11)) else
+   EDef 10 (ELit (VStr [97; 98])), m).
 
 Theorem C04_cache_refuted_without_recheck :
   exists parse h t,
-    let st := state_after false true parse (fresh []) h in
-    fst (run_cached false true parse st t) <> fst (eval_pure (parse t) (vars st)).
-Proof. exists r15_parse, [1; 2; 3; 4], 3. vm_compute. discriminate. Qed.
+    no_cached_switch false true true parse (fresh []) (h ++ [t]) = true /\
+    let st := state_after false true true parse (fresh []) h in
+    fst (run_cached false true true parse st t) <> fst (eval_ref parse (cur st, vars st) t).
+Proof. exists r15_parse, [1; 2; 3; 4], 3. split; [vm_compute; reflexivity|]. vm_compute. discriminate. Qed.
 
 Example C04_cache_example :
-  let st := state_after true true r15_parse (fresh []) [1; 2; 3; 4] in
-  fst (run_cached true true r15_parse st 3) = Err /\
-  fst (run_cached true true r15_parse (state_after true true r15_parse (fresh []) [1; 2; 3]) 3) = Ok (VInt 6) /\
+  let st := state_after true true true r15_parse (fresh []) [1; 2; 3; 4] in
+  fst (run_cached true true true r15_parse st 3) = Err /\
+  fst (run_cached true true true r15_parse (state_after true true true r15_parse (fresh []) [1; 2; 3]) 3) = Ok (VInt 6) /\
   memo st <> [].
 Proof. vm_compute. repeat split; discriminate. Qed.
+
+(* module switches.  Text 1 = `.module(:m)` (switches to module 7 while being parsed), text 3 =
+   `.module(0)`, text 2 = `t::1`, which the parser reads as t`m::1 (name 20) inside the module and as
+   t::1 (name 10) outside. *)
+Definition mod_parse (t : text) (m : module) : expr * module :=
+  if t =? 1 then (ELit (VInt 0), 7) else
+  if t =? 3 then (ELit (VInt 0), 0) else
+  (EDef (if m =? 7 then 20 else 10) (ELit (VInt 1)), m).
+
+(* with a parse cache keyed by the text alone the statement is false: .module(:m); t::1; .module(0);
+   then t::1 at global level re-uses the tree parsed inside the module and assigns the module's t *)
+Theorem C04_cache_refuted_with_text_only_key :
+  exists parse h t,
+    no_cached_switch true true false parse (fresh []) (h ++ [t]) = true /\
+    let st := state_after true true false parse (fresh []) h in
+    let r := run_cached true true false parse st t in
+    (fst r, (cur (snd r), vars (snd r))) <> eval_ref parse (cur st, vars st) t.
+Proof. exists mod_parse, [1; 2; 3], 2. split; [vm_compute; reflexivity|]. vm_compute. discriminate. Qed.
+
+(* known finding C04-cached-module-switch: even with the (text, module) key, a module-switching
+   text served from the cache does not switch the parser's module: .module(:m); .module(0); .module(:m) *)
+Theorem C04_cached_module_switch_refuted :
+  exists parse h t,
+    let st := state_after true true true parse (fresh []) h in
+    let r := run_cached true true true parse st t in
+    cached_switch true parse st t = true /\
+    (fst r, (cur (snd r), vars (snd r))) <> eval_ref parse (cur st, vars st) t.
+Proof. exists mod_parse, [1; 3], 1. split; [vm_compute; reflexivity|]. vm_compute. discriminate. Qed.
+
+Example C04_modules_example :
+  no_cached_switch true true true mod_parse (fresh []) [1; 2; 3; 2] = true /\
+  vars (state_after true true true mod_parse (fresh []) [1; 2; 3; 2]) = [(20, VInt 1); (10, VInt 1)].
+Proof. vm_compute. split; reflexivity. Qed.
 
 (* T4.views — arrays are buffers, drop / take / reverse return views of the operand's buffer and
    amend clones first (regenerated flag): for every statement sequence, a variable that is not
